@@ -59,6 +59,7 @@ class Prop:
         off = rng.choice([None, None, None, 37, 123, 411])
         if off and form not in ("while_do", "do_while", "catch_handler"):  # (those use callbacks with state shared across subscriptions)
             sc["sub2_t"] = 205 + off
+        multi.gen_feedback(rng, sc, rng.choice(srcs), p=0.12)  # a consumer that pushes a follow-up element into one (hot) source
         return sc
 
     def build(self, w, sc):
